@@ -58,7 +58,8 @@ func zzTree() {
 	file("/s/w/d/index.html")
 	file("/s/w2/x") // sibling directory sharing the root's name as a prefix
 	file("/s/w2/index.html")
-	file("/o/p") // outside
+	file("/s/W/x") // sibling directory whose name differs from the root's only by letter case
+	file("/o/p")   // outside
 	file("/o/index.html")
 	zzverif.FSDir("/s/w/n")                                      // directory without index
 	zzverif.FSSymlink("/s/w/li", "a")                            // link -> file inside
@@ -66,6 +67,7 @@ func zzTree() {
 	zzverif.FSSymlink("/s/w/lo", zzverif.FSPath("/o/p"))         // link -> file outside (absolute)
 	zzverif.FSSymlink("/s/w/lq", zzverif.FSPath("/o"))           // link -> directory outside (absolute)
 	zzverif.FSSymlink("/s/w/lr", "../w2")                        // link -> sibling directory (relative)
+	zzverif.FSSymlink("/s/w/lc", "../W")                         // link -> the case-sibling directory
 	zzverif.FSSymlink("/s/w/lp", "lp")                           // loop
 	zzverif.FSSymlink("/s/w/e/index.html", zzverif.FSPath("/o/p")) // directory whose index file is a link outside
 	zzverif.FSSymlink("/s/rl", "w")                              // the root reached through a link
